@@ -662,9 +662,64 @@ async def run_ft_async(function_test):
         raise FunctionRaised(f"{type(e).__name__}: {e}") from e
 
 
+def effect_of_requests(current, calls) -> dict:
+    """what the Function did to the API, from the REQUESTS it made (recorded at the call boundary), never from
+    what the mock says it holds: no mutating request -> none; last one a DELETE -> deleted; last one a
+    POST/PATCH -> wrote, and 'the object sent' is the body, for a patch laid over the case's own resource with
+    every top-level key the body names REPLACED (DESIGN section 7 / notes C19: nothing below the top level of
+    the current resource survives unless the body says so)"""
+    muts = [c for c in calls if c["c"] != "get"]
+    if not muts:
+        return {"e": "none"}
+    last = muts[-1]
+    if last["c"] == "delete":
+        return {"e": "deleted"}
+    body = copy.deepcopy(last["body"])
+    if current and isinstance(current, dict) and isinstance(body, dict):
+        m = copy.deepcopy(current)
+        m.update(body)
+        return {"e": "wrote", "m": m}
+    return {"e": "wrote", "m": body}
+
+
+def _record_requests(api, calls: list):
+    """wrap THIS mock instance's `async_get` / `call_api` so that every request is appended to `calls`
+    ({"c": "get"} | {"c": "delete"} | {"c": "write", "verb": ..., "body": ...}) before the mock sees it"""
+    orig_call = getattr(api, "call_api", None)
+    orig_get = getattr(api, "async_get", None)
+    if orig_call is None:
+        return
+
+    def rec_call(*a, **k):
+        verb = next((x for x in a if isinstance(x, str)), k.get("method"))
+        if "DELETE" in a or verb == "DELETE":
+            calls.append({"c": "delete"})
+        else:
+            raw = k.get("data", "{}")
+            try:
+                body = json.loads(raw) if isinstance(raw, (str, bytes)) else copy.deepcopy(raw)
+            except Exception:
+                body = None
+            calls.append({"c": "write", "verb": verb, "body": body})
+        return orig_call(*a, **k)
+
+    def rec_get(*a, **k):
+        calls.append({"c": "get"})
+        return orig_get(*a, **k)
+
+    try:
+        api.call_api = rec_call
+        if orig_get is not None:
+            api.async_get = rec_get
+    except Exception:
+        pass
+
+
 @contextlib.contextmanager
-def observe():
-    """record, for every case the runner executes, what it handed to the Function and what came back"""
+def observe(record_requests: bool = False):
+    """record, for every case the runner executes, what it handed to the Function and what came back.
+    `record_requests`: additionally record the requests the Function made ("calls") and the effect derived
+    from them alone ("eff_sent", see `effect_of_requests`) — "eff" stays what the mock reports."""
     from koreo.function_test import run as ftrun
 
     if not (hasattr(ftrun, "reconcile_value_function") and hasattr(ftrun, "reconcile_resource_function")):
@@ -676,13 +731,20 @@ def observe():
         inputs = ku.plain(k.get("inputs"))
         base = k.get("value_base")
         res = await orig_v(*a, **k)
-        log.append({"inputs": inputs, "resource": (ku.plain(base) or None), "out": res, "eff": {"e": "none"}})
+        entry = {"inputs": inputs, "resource": (ku.plain(base) or None), "out": res, "eff": {"e": "none"}}
+        if record_requests:
+            entry["calls"] = []
+            entry["eff_sent"] = {"e": "none"}
+        log.append(entry)
         return res
 
     async def rec_r(*a, **k):
         api = k.get("api")
         inputs = ku.plain(k.get("inputs"))
         cur = copy.deepcopy(getattr(api, "_current_resource", None))
+        calls: list = []
+        if record_requests:
+            _record_requests(api, calls)
         res = await orig_r(*a, **k)
         if getattr(api, "_delete_called", False):
             eff = {"e": "deleted"}
@@ -690,7 +752,11 @@ def observe():
             eff = {"e": "wrote", "m": copy.deepcopy(api.materialized)}
         else:
             eff = {"e": "none"}
-        log.append({"inputs": inputs, "resource": (cur or None), "out": res[0], "eff": eff})
+        entry = {"inputs": inputs, "resource": (cur or None), "out": res[0], "eff": eff}
+        if record_requests:
+            entry["calls"] = calls
+            entry["eff_sent"] = effect_of_requests(cur, calls)
+        log.append(entry)
         return res
 
     ftrun.reconcile_value_function, ftrun.reconcile_resource_function = rec_v, rec_r
